@@ -148,8 +148,8 @@ fcontract('VarInt', '_parse', [
     Case('truncated', 'raise', lambda pre: t.lt(leb_scan(S_(pre)), t.ZERO),
          ensures=lambda pre, post: [('running-out-of-bytes-is-StreamError', stream_error(post), ('C06', 'C03'))] + generic_raise(pre, post),
          modifies=['stream']),
-], loops={'while True': LoopSpec(_vi_l1_inv, variant=None, tags=T, havoc_kinds={}, modifies=()),
-          'for b in reversed(acc)': LoopSpec(_vi_l2_inv, tags=T, modifies=())})
+], loops={'while True': LoopSpec(_vi_l1_inv, variant=None, tags=T, havoc_kinds={}, modifies=(), generic_ok=True),
+          'for b in reversed(acc)': LoopSpec(_vi_l2_inv, tags=T, modifies=(), generic_ok=True)})
 
 
 def _leb_byte(x, j, n):
@@ -190,7 +190,7 @@ fcontract('VarInt', '_build', [
          ensures=_vi_build_ok, rkind=rk_dyn, modifies=['stream']),
     Case('rejects', 'raise', lambda pre: t.not_(t.and_(t.app('isint', t.BOOL, pre['obj'].t), t.ge(t.app('toint', t.INT, pre['obj'].t), t.ZERO))),
          ensures=lambda pre, post: [('rejection-is-IntegerError', t.eq(post.exc.cls, I(post.eng.src.exc_code['IntegerError'])), ('C03',))] + generic_raise(pre, post)),
-], loops={'while x > 127': LoopSpec(_vi_build_inv, variant=lambda L: L.eng.as_int(L['x'], L.st)[0], tags=T, variant_tags=('C06',), modifies=())})
+], loops={'while x > 127': LoopSpec(_vi_build_inv, variant=lambda L: L.eng.as_int(L['x'], L.st)[0], tags=T, variant_tags=('C06',), modifies=(), generic_ok=True)})
 
 
 # ================================================================================================ ZigZag
